@@ -759,10 +759,34 @@ class Lib:
             v = args[0]
             return self.sum_(run, v, lineno)
         if name == 'sorted':
-            raise Unsupported('sorted')
+            if len(args) != 1 or kw:
+                raise Unsupported('sorted with key / reverse')
+            return self.sorted_(run, args[0], lineno)
         if name == 'isinstance':
             raise Unsupported('isinstance')
         raise Unsupported('builtin %s' % name)
+
+    def sorted_(self, run, v, lineno):
+        """assumed contract of sorted(iterable of numbers): a new list, non-decreasing, a rearrangement of the input
+        (perm / inv are the ghost bijection between result positions and input positions)"""
+        if isinstance(v, tuple) and v and v[0] == 'genexp':
+            v = self.listcomp(run, v[1], v[2])
+        if isinstance(v, _EmptyList):
+            return _EmptyList()
+        if not isinstance(v, SList) or isinstance(v.esort, TupleSpec) or not (v.esort == R or v.esort == I):
+            raise Unsupported('sorted(%r) at line %d' % (v, lineno))
+        m = v.snap()
+        n = m.n
+        a = fresh('srt_a', z3.ArraySort(I, m.esort))
+        k = next(so._counter)
+        perm = z3.Function('srt_perm!%d' % k, I, I)
+        inv = z3.Function('srt_inv!%d' % k, I, I)
+        res = SList(m.esort, n=n, a=a, name='sorted')
+        res.perm, res.inv, res.base = perm, inv, m
+        run.assume(so.forall_idx(n, lambda i: And(0 <= perm(i), perm(i) < n, a[i] == m.a[perm(i)], inv(perm(i)) == i)))
+        run.assume(so.forall_idx(n, lambda j: And(0 <= inv(j), inv(j) < n, perm(inv(j)) == j, a[inv(j)] == m.a[j])))
+        run.assume(so.forall_idx(n, lambda i: so.forall_idx(n, lambda j: Implies(i < j, a[i] <= a[j]))))
+        return res
 
     def card(self, run, v):
         """len() of a dict/set: cardinality of the domain (ghost key sequence length)"""
